@@ -100,6 +100,32 @@ CLAIMS = {
              "over received bytes) and f440141 (segmentation bit kept). Known finding F09b: P/F attribute of SNRM/UA/DISC/RR is not on the wire.",
         technique="Coq proof (layout, acceptance soundness) + correspondence + exhaustive single-fault enumeration",
         design="4/C09"),
+    "C11": dict(
+        text="Coq theorems (axiom-free) over the generated transition table and the guards of HdlcConnection: every step "
+             "the link accepts (send or receive, any of the six states, any frame kind) is an edge of the NRM client "
+             "procedure with the prescribed post-state, an information frame is accepted for sending or on receipt only "
+             "with the link's current send/receive numbers, every required edge is accepted, and after ANY history of "
+             "operations of any length (induction over the operation list) the counters the client must use equal the "
+             "numbers of information frames sent and received modulo 8. Tie: table/SEND_STATES/PARSE_METHODS regenerated "
+             "from the source; the reachable graph of the real connection object (6 states x 8 x 8 counters x direction x "
+             "kind x number pairs) is exhausted edge by edge against model and reference automaton, plus random 400-step histories.",
+        note="Trusted: Coq kernel, translator, extraction + driver, Python harness. Model follows fix commit 6c7db20 "
+             "(send guarded by SEND_STATES). A state change accompanying a refused out-of-sequence frame is modelled, not judged.",
+        technique="Coq proof (case analysis over the generated table + induction over histories) + translator + exhaustive graph correspondence",
+        design="4/C11"),
+    "C10": dict(
+        text="Coq theorem (axiom-free): for every byte string F that the state's parser accepts as a frame f (arbitrary "
+             "payload bytes incl. flag bytes), every link state that may receive it and EVERY partition of F into non-empty "
+             "chunks, polling until nothing is pending after each chunk yields only NEED_DATA before the last chunk and then "
+             "exactly f, once, with the buffer empty and the search position reset (induction over the chunk list; key "
+             "lemma: a candidate ending at an inner 0x7E is a proper prefix and is refused by the length check with the "
+             "parsing error the factory maps to NEED_DATA). Streams of several frames, shared flags and the interleaved "
+             "receive-ready frames are covered by the correspondence (same scripts on model and real HdlcConnection: every "
+             "single and double cut of short streams, random multi-cuts to 1-byte chunks) and the delivered-frames search.",
+        note="Partial: the multi-frame / shared-flag statement is checked, not proved. Trusted: Coq kernel, translator, "
+             "extraction + driver, Python harness.",
+        technique="Coq proof (induction over chunk partitions) + scripted correspondence on the real connection object",
+        design="4/C10"),
 }
 
 NOT_YET = "not yet built in this stage of the work; see DESIGN.md section 6 (build order)"
